@@ -132,7 +132,7 @@ pub fn cases(ctx: &Ctx) -> Vec<Case> {
         return v;
     }
     let mut rng = Rng::derive(ctx.seed, &[0xC19]);
-    let n = if ctx.quick() { 100 } else { 8000 };
+    let n = if ctx.quick() { 600 } else { 12000 };
     for s in ["", "TEST SEED", "é日本語", &"long".repeat(2500)] {
         v.push(Case::Keygen { seed: s.to_string() });
     }
